@@ -428,12 +428,15 @@ class LP_Solver:
         student_multiplier = 1 if len(cost_multipliers) < 1 else cost_multipliers[0]
         lecturer_multiplier = 1 if len(cost_multipliers) < 2 else cost_multipliers[1]
         self.info_string += '- optimisation: minimising costs with lecturer load balancing\n'
+        # No matching can cost more than all pairs together, and a lecturer's
+        # load deviation is at most their upper quota.
+        up_bound = sum(self.model.lec_upper_quotas) * lecturer_multiplier
+        for pair in list(chain.from_iterable(self.model.pairs)):
+            up_bound += pair.rank_student * student_multiplier
         obj = LpVariable(
                 "obj_mincostlsb",
                 lowBound = 0,
-                upBound = self.model.num_students * self.model.num_projects *
-                  student_multiplier + self.model.num_students *
-                  self.model.num_lecturers * lecturer_multiplier,
+                upBound = up_bound,
                 cat = "Integer")
         sum_costs_exp = LpAffineExpression()
         # Costs for students
